@@ -941,13 +941,18 @@ class IMAPUserServer:
         Return the next uid_vv. Also update the underlying database
         so that its uid_vv state remains up to date.
         """
+        # NOTE: Hold on to our value: while we wait for the database another
+        #       task may ask for the next one, and reading `self.uid_vv` back
+        #       after the await handed both tasks the same uid_vv.
+        #
         self.uid_vv += 1
+        uid_vv = self.uid_vv
         await self.db.execute(
             "UPDATE user_server SET uid_vv = ?",
-            (str(self.uid_vv),),
+            (str(uid_vv),),
             commit=True,
         )
-        return self.uid_vv
+        return uid_vv
 
     ##################################################################
     #
